@@ -20,21 +20,21 @@ DRIFT_PARAM = {
     "ADWIN": ("delta", [1.0, 0.9, 0.5, 0.1, 0.002]),
     "ADWINAccuracy": ("delta", [1.0, 0.9, 0.5, 0.1, 0.002]),
     "CUSUM": ("threshold", [0.0, 1.0, 5.0, 20.0, 50.0]),
-    "PageHinkley": ("threshold", [0.0, 1.0, 5.0, 20.0, 50.0]),
+    "PageHinkley": ("threshold", [0.0, 0.25, 1.0, 5.0, 20.0, 50.0]),
     "DDM": ("drift_scale", [1.0, 2.0, 3.0, 4.0, 6.0]),
     "EDDM": ("drift_thresh", [0.99, 0.9, 0.8, 0.5, 0.1]),
     "STEPD": ("alpha_drift", [0.5, 0.2, 0.05, 0.003, 0.0001]),
-    "LinearFourRates": ("detect_level", [0.5, 0.2, 0.05, 0.01]),
-    "KdqTreeStreaming": ("alpha", [0.5, 0.2, 0.05, 0.01]),
-    "KdqTreeBatch": ("alpha", [0.5, 0.2, 0.05, 0.01]),
-    "NNDVI": ("alpha", [0.5, 0.3, 0.1, 0.01, 0.001]),
+    "LinearFourRates": ("detect_level", [0.98, 0.8, 0.5, 0.2, 0.05, 0.01]),   # levels above 1/2: the bounds cross, every tested sample alarms
+    "KdqTreeStreaming": ("alpha", [0.9, 0.5, 0.2, 0.05, 0.01]),
+    "KdqTreeBatch": ("alpha", [0.9, 0.5, 0.2, 0.05, 0.01]),
+    "NNDVI": ("alpha", [0.9, 0.5, 0.3, 0.1, 0.01, 0.001]),
     "HDDDM": None, "CDBD": None,   # handled per statistic below
 }
 WARN_PARAM = {   # (parameter, menu from strict warning to loose warning)
     "DDM": ("warning_scale", [3.0, 2.0, 1.0, 0.5]),
     "EDDM": ("warning_thresh", [0.8, 0.9, 0.95, 0.99]),
     "STEPD": ("alpha_warning", [0.01, 0.05, 0.2, 0.5]),
-    "LinearFourRates": ("warning_level", [0.01, 0.05, 0.2, 0.5]),
+    "LinearFourRates": ("warning_level", [0.01, 0.05, 0.2, 0.5, 0.8, 0.98]),
 }
 
 
@@ -85,6 +85,29 @@ def run(ctx):
     base = dict(delta=0.01, burn_in=2, direction="positive")
     hist = [-1.0] * 12
     check_pair(ctx, fam, dict(base, threshold=0.0), dict(base, threshold=1.0), "threshold", hist, ("corpus", "F12"))
+    # structured scalar histories x *all* ordered pairs of the menu for the two cheap threshold detectors: ramps and steps
+    # with negative / positive / sign-changing running means, in both directions (the random zoo histories below rarely
+    # keep a negative mean while the statistic keeps setting new extremes)
+    srng = np.random.default_rng([ctx.seed, 171])
+    shapes = []
+    for start in (-1.0, 0.0, 2.0, -20.0):
+        for slope in (-0.05, -0.5, -2.0, 0.05, 0.5):
+            shapes.append([start + slope * t + float(srng.integers(-4, 5)) / 64.0 for t in range(80)])
+    for lvl0, lvl1 in ((-3.0, -6.0), (-6.0, -3.0), (-1.0, 4.0), (2.0, -5.0)):
+        shapes.append([lvl0 + float(srng.integers(-8, 9)) / 16.0 for _ in range(40)] + [lvl1 + float(srng.integers(-8, 9)) / 16.0 for _ in range(40)])
+    for name in ("PageHinkley", "CUSUM"):
+        fam = zoo.BY_NAME[name]
+        par, menu = DRIFT_PARAM[name]
+        for hi, hist in enumerate(shapes if not ctx.quick else shapes[::2]):
+            cfg = fam.config(np.random.default_rng([ctx.seed, 172, hi]))
+            if name == "PageHinkley":
+                cfg["burn_in"] = int([0, 2, 5, 30][hi % 4])
+            for i in range(len(menu)):
+                for j in range(i + 1, len(menu)):
+                    loose, strict = dict(cfg), dict(cfg)
+                    loose[par], strict[par] = menu[i], menu[j]
+                    check_pair(ctx, fam, loose, strict, par, hist, (name, "shape", hi, i, j))
+                    ctx.count(f"{name}:structured-pairs")
     names = list(DRIFT_PARAM)
     for name in names:
         fam = zoo.BY_NAME[name]
@@ -144,8 +167,10 @@ def check_pair(ctx, fam, loose, strict, par, hist, key):
     if name == "PageHinkley":
         m = aux[fs] if aux and fs < len(aux) else None
         m_pub = ph_means(fam, strict, hist, fs)
-        if m_pub is not None and m_pub < 0:
-            sig = {"class": "pagehinkley-negative-mean-threshold"}
+        # F12 (known finding) is exactly: looser threshold <= 0 and a negative running mean at the stricter run's alarm; for a
+        # positive looser threshold the documented test *is* monotone (Props/C17PH.lean ph_first_alarm_mono_partial)
+        if m_pub is not None and m_pub < 0 and loose[par] <= 0:
+            sig = {"class": "pagehinkley-negative-mean-threshold", "looser_threshold": "<=0"}
     ctx.fail(signature=sig, detector=name, parameter=par, loose=loose, strict=strict,
              first_drift_loose=fl, first_drift_strict=fs,
              what=f"stricter {par}={strict[par]} alarms at update {fs}, looser {par}={loose[par]} at {fl}",
